@@ -20,8 +20,28 @@ def observe(case):
             "item0": res["items"][0]["text"] if res.get("items") else "", "out": res.get("out", "")}
 
 
+def markers_of(case, obs):
+    """-> [sorted marker predicates, sorted field types that are bounded] of the first generated impl"""
+    import re
+    ws = None
+    for tr, w in obs["where"].items():
+        ws = w
+        break
+    if ws is None:
+        return None
+    marks = sorted(w for w in ws if re.fullmatch(r"T:(M\d+|Own)", w))
+    rest = [w for w in ws if w not in marks]
+    fts = sorted(ft for ft in case["all_field_types"] if any(common.norm(ft) + ":" in w for w in rest))
+    return [marks, fts]
+
+
 def disagrees(case, obs):
     k = case["kind"]
+    if k == "where_markers":
+        got = markers_of(case, obs)
+        if got is None:
+            return True
+        return got != [sorted(common.norm(m) for m in case["expected_markers"]), sorted(case["expected_field_types"])]
     if k == "reject":
         return obs["rejected"] != case["expected_reject"]
     if k == "reject_trait":
